@@ -180,9 +180,9 @@ def d1_progress(ctx, idx):
                 'undefined dependency' % flag, lib.loc(fi, w), expected='%s = False at the start of every round' % flag)
         # (b) set only after a removal from the pending dict
         if not sets:
-            r.violation('gen_symbols_samples: %s is set when a dependent was computed' % flag,
-                        'the flag is never set inside the loop: every round counts as "no progress", so valid dependency '
-                        'chains are reported as circular', where)
+            X.absent(r, 'gen_symbols_samples: %s is set when a dependent was computed' % flag,
+                     'the flag is never set inside the loop: every round counts as "no progress", so valid dependency '
+                     'chains are reported as circular', where)
         else:
             reach = cfg.reach([wt], blocked=removals, include_starts=False, blocked_edges=[(wt, 'false')])
             bad = [n for n in sets if n in reach]
@@ -506,23 +506,37 @@ def d3_roles(ctx, idx):
                 and isinstance(loop.target.elts[1], ast.Name):
             deps = loop.target.elts[1].id
         construct = 'gen_symbols_samples: a dependent is computed only when all its depends are in the sample'
+        def readiness(t):
+            """(+1/-1, test expr) if the canonical If test is (the negation of) a readiness test."""
+            c = nf.canon(t)
+            neg = isinstance(c, ast.UnaryOp) and isinstance(c.op, ast.Not)
+            core = c.operand if neg else c
+            if isinstance(core, ast.Call) and (nf.callee_name(core) == 'is_subset' or (
+                    nf.callee_name(core) == 'all' and len(core.args) == 1 and isinstance(core.args[0], (ast.GeneratorExp, ast.ListComp)))):
+                return (-1 if neg else 1), core
+            return None
+        tests = [(t, readiness(t.test)) for t in (ast.walk(loop) if loop is not None else []) if isinstance(t, ast.If) and readiness(t.test)]
         guard = None
-        p = parent(st)
-        while p is not None and p is not loop:
-            if isinstance(p, ast.If) and any(nf.callee_name(x) == 'is_subset' for x in ast.walk(p.test) if isinstance(x, ast.Call)) \
-                    and any(st is s or X.in_subtree(st, s) for s in p.body):
-                guard = p
-            p = parent(p)
-        if guard is None:
-            r.violation(construct, 'the compute_sample call is not controlled by an is_subset(...) test: dependents are evaluated in '
-                        'declaration order, before the values they depend on exist', lib.loc(fi, st),
-                        expected='if is_subset(dependencies, sample_dict):')
+        for t, (pol, core) in tests:
+            if X.controlled_by(fi, t, pol > 0, st):
+                guard = (t, core)
+        if guard is None and tests:
+            r.violation(construct, 'the compute_sample call can run on the branch where `%s` is false: dependents are evaluated before the '
+                        'values they depend on exist' % short(tests[0][1][1]), lib.loc(fi, st), expected='if is_subset(dependencies, sample_dict):')
+        elif guard is None:
+            X.absent(r, construct, 'the compute_sample call is not controlled by an is_subset(...) test: dependents are evaluated in declaration '
+                     'order, before the values they depend on exist', lib.loc(fi, st), expected='if is_subset(dependencies, sample_dict):',
+                     understood=loop is not None and X.only_calls([loop], {'compute_sample', 'list', 'items', 'pop'}))
         elif deps is None:
-            r.undecided(construct, 'loop over the pending dict not recognised', lib.loc(fi, guard))
+            r.undecided(construct, 'loop over the pending dict not recognised', lib.loc(fi, guard[0]))
         else:
-            verdict(r, construct, nf.classify("is_subset(%s, %s)" % (deps, A.D), guard.test), lib.loc(fi, guard),
-                    short(guard.test), expected='is_subset(dependencies, sample_dict)',
-                    why='the test must ask whether the depends are contained in the sample, not the reverse')
+            core = guard[1]
+            pats = ["is_subset(%s, %s)" % (deps, A.D), "all(_X in %s for _X in %s)" % (A.D, deps), "all([_X in %s for _X in %s])" % (A.D, deps)]
+            if X.any_match(pats, core) is not None:
+                r.ok(construct, short(core), lib.loc(fi, guard[0]))
+            else:
+                verdict(r, construct, nf.classify(pats[0], core), lib.loc(fi, guard[0]), short(core), expected='is_subset(dependencies, sample_dict)',
+                        why='the test must ask whether the depends are contained in the sample, not the reverse')
         # is_subset itself
         sub = idx.func('mitxgraders.sampling.is_subset')
         construct = 'is_subset: true exactly when every item is in the superset'
@@ -564,8 +578,8 @@ def _translation(r, idx, fi, call, construct):
     """The call sits in a try whose handler covers CalcError and raises ConfigError on every path."""
     tr = lib.enclosing_try(call)
     if tr is None:
-        r.violation(construct, 'the call `%s` is not inside a try: a formula error reaches the student as a student-facing CalcError '
-                    'instead of a ConfigError' % short(call, 50), lib.loc(fi, call), expected='except CalcError: raise ConfigError')
+        X.absent(r, construct, 'the call `%s` is not inside a try: a formula error reaches the student as a student-facing CalcError '
+                 'instead of a ConfigError' % short(call, 50), lib.loc(fi, call), expected='except CalcError: raise ConfigError')
         return
     cover = [h for h in tr.handlers if X.handler_covers(h, CALC_COVER)]
     if not cover:
@@ -590,12 +604,22 @@ def d4_dependent(ctx, idx):
         construct = "DependentSampler.__init__: config['depends'] = variables used by the parsed formula"
         stores = [s for s in walk_own(fn) if isinstance(s, ast.Assign) and any(lib.is_config(t, 'depends') for t in s.targets)]
         pcalls = [c for c in walk_own(fn) if isinstance(c, ast.Call) and nf.callee_name(c) == 'parse']
+        host = init          # the function in which parse(...) is called (the constructor or a helper it delegates to)
         if not stores:
-            r.violation(construct, "config['depends'] is never overwritten: the author's (possibly incomplete or missing) list decides when "
-                        "the variable is computed, so it can be evaluated before the values it really uses", init.loc,
-                        expected="self.config['depends'] = list(parsed.variables_used)")
+            X.absent(r, construct, "config['depends'] is never overwritten: the author's (possibly incomplete or missing) list decides when "
+                     "the variable is computed, so it can be evaluated before the values it really uses", init.loc,
+                     expected="self.config['depends'] = list(parsed.variables_used)",
+                     understood=X.only_calls([fn], {'super', '__init__', 'parse', 'ConfigError', 'list'}))
         else:
             val = lib.inline_locals(stores[0].value, fn)
+            if isinstance(val, ast.Call) and nf.callee_name(val) not in ('list', 'sorted', 'set', 'tuple', 'parse'):
+                targets, how = idx.resolve_call(init, val)
+                fts = [t for t in targets if hasattr(t, 'node')]
+                if len(fts) == 1 and len(lib.returns_of(fts[0].node)) == 1:
+                    host = fts[0]
+                    bound = X.bind_call(val, host.params, skip_self=not host.is_static and host.cls is not None)
+                    val = nf.subst(lib.inline_locals(lib.returns_of(host.node)[0].value, host.node), bound)
+                    pcalls = [c for c in walk_own(host.node) if isinstance(c, ast.Call) and nf.callee_name(c) == 'parse']
             src = X.copy_source(val) or val
             if X.m("parse(self.config['formula']).variables_used", src) is not None:
                 r.ok(construct, short(val), lib.loc(init, stores[0]))
@@ -606,7 +630,7 @@ def d4_dependent(ctx, idx):
             else:
                 r.undecided(construct, 'value not recognised: %s' % short(val), lib.loc(init, stores[0]))
         if len(pcalls) == 1:
-            _translation(r, idx, init, pcalls[0], 'DependentSampler.__init__: a formula that does not parse raises ConfigError')
+            _translation(r, idx, host, pcalls[0], 'DependentSampler.__init__: a formula that does not parse raises ConfigError')
         else:
             r.undecided('DependentSampler.__init__: parse', 'expected one parse(...) call', init.loc)
         comp = idx.func(DS + '.compute_sample')
@@ -967,15 +991,21 @@ def d5_numbered(ctx, idx):
             raise AnalysisError('generate_variable_list: `(full, head) = match.groups()` not found')
         G1, G2 = un[0][1]['_G1'].id, un[0][1]['_G2'].id
         gst = un[0][0]
-        guard = parent(gst)
-        okg = isinstance(guard, ast.If) and any(gst is s for s in guard.body) and X.any_match([M, "%s is not None" % M], guard.test) is not None
-        r.check(okg, 'generate_variable_list: groups are read only when the name matched', 'if match:',
-                'match.groups() is evaluated without testing the match (AttributeError on None for ordinary undeclared names)',
-                lib.loc(fi, gst))
+        construct = 'generate_variable_list: groups are read only when the name matched'
+        tests = [(t, X.truth_test(t.test, M)) for t in ast.walk(loop) if isinstance(t, ast.If) and X.truth_test(t.test, M) != 0]
+        if any(X.controlled_by(fi, t, pol > 0, gst) for t, pol in tests):
+            r.ok(construct, 'match.groups() is control dependent on the match test', lib.loc(fi, gst))
+        elif tests:
+            r.violation(construct, 'match.groups() can run on the branch where `%s` found no match (AttributeError on None for ordinary '
+                        'undeclared names)' % short(tests[0][0].test), lib.loc(fi, gst))
+        else:
+            X.absent(r, construct, 'match.groups() is evaluated without testing the match (AttributeError on None for ordinary undeclared '
+                     'names)', lib.loc(fi, gst), understood=X.only_calls([loop], {'match', 'fullmatch', 'search', 'groups', 'append'}))
         construct = 'generate_variable_list: the full name (group 1) is added to the variable list'
         apps = X.find_stmts(loop, "%s.append(_A)" % VL, own=False)
         if not apps:
-            r.violation(construct, 'nothing is appended to the variable list: numbered instances get no sample', lib.loc(fi, loop))
+            X.absent(r, construct, 'nothing is appended to the variable list: numbered instances get no sample', lib.loc(fi, loop),
+                     understood=X.only_calls([loop], {'match', 'fullmatch', 'search', 'groups'}))
         else:
             a = apps[0][1]['_A']
             if X.is_name(a, G1):
@@ -988,7 +1018,8 @@ def d5_numbered(ctx, idx):
         construct = "generate_variable_list: the instance is sampled from its head's sampling set"
         stores = X.find_stmts(loop, "%s[_K] = _V" % SF, own=False)
         if not stores:
-            r.violation(construct, 'no sampler is registered for the numbered instance: gen_symbols_samples fails with KeyError', lib.loc(fi, loop))
+            X.absent(r, construct, 'no sampler is registered for the numbered instance: gen_symbols_samples fails with KeyError', lib.loc(fi, loop),
+                     understood=X.only_calls([loop], {'match', 'fullmatch', 'search', 'groups', 'append'}))
         else:
             k, v = stores[0][1]['_K'], stores[0][1]['_V']
             probs = []
@@ -1076,7 +1107,8 @@ def d6_constants(ctx, idx):
                     merged, how, mst = lp.iter, 'setdefault', st
         construct = 'construct_constants: defaults then user constants'
         if merged is None:
-            r.violation(construct, 'nothing is merged into the copy: user constants are ignored', fi.loc)
+            X.absent(r, construct, 'nothing is merged into the copy: user constants are ignored', fi.loc,
+                     understood=X.only_calls([fn], {'copy', 'dict'}))
             return
         if X.is_name(src, 'default_variables') and X.is_name(merged, 'user_consts'):
             r.ok(construct, 'base = defaults, merged = user constants', lib.loc(fi, mst))
@@ -1113,29 +1145,50 @@ def d6_siblings(ctx, idx):
         branches = [s for s in walk_own(fn) if isinstance(s, ast.If) and X.m("isinstance(_X, dict)", s.test) is not None
                     and X.enclosing_loop(s) is not None and not X.in_subtree(gv[0], X.enclosing_loop(s))
                     and X.dominates(fi, X.enclosing_loop(s), gv[0])]
+        EXS = X.aliases(fn, EX)
         ext = False
+        empty_branch = False
         for s in branches:
+            body = [x for x in _body(s.body) if not isinstance(x, ast.Pass)]
+            if not body:
+                empty_branch = True
             for x in ast.walk(ast.Module(body=s.body, type_ignores=[])):
-                if isinstance(x, ast.AugAssign) and X.is_name(x.target, EX) and ('values' in unparse(x.value) or 'items' in unparse(x.value)):
+                if isinstance(x, ast.AugAssign) and isinstance(x.target, ast.Name) and x.target.id in EXS:
                     ext = True
-                if isinstance(x, ast.Call) and isinstance(x.func, ast.Attribute) and x.func.attr in ('extend', 'append') \
-                        and X.is_name(x.func.value, EX):
+                if isinstance(x, ast.Call) and isinstance(x.func, ast.Attribute) and x.func.attr in ('extend', 'append', 'update') \
+                        and isinstance(x.func.value, ast.Name) and x.func.value.id in EXS:
+                    ext = True
+                if isinstance(x, ast.Assign) and any(isinstance(t, ast.Name) and t.id in EXS for t in x.targets):
                     ext = True
         if not branches:
             r.undecided(construct, 'no isinstance(entry, dict) branch before generate_variable_list', fi.loc)
+        elif ext:
+            r.ok(construct, 'dict values are added to the expressions', lib.loc(fi, branches[0]))
+        elif empty_branch and X.no_unreviewed(r):
+            r.violation(construct, 'the dict branch is empty, it no longer adds the values to `%s`: variables (incl. numbered ones) that occur '
+                        'only in sibling or answer dicts get no sample' % EX, lib.loc(fi, branches[0]))
         else:
-            r.check(ext, construct, 'dict values are added to the expressions',
-                    'the dict branch no longer adds the values to `%s`: variables (incl. numbered ones) that occur only in sibling or '
-                    'answer dicts get no sample' % EX, lib.loc(fi, branches[0]))
+            r.undecided(construct, 'the dict branch does not visibly extend `%s`' % EX, lib.loc(fi, branches[0]))
         # sibling loop
         ds = [c for c in walk_own(fn) if isinstance(c, ast.Call) and nf.callee_name(c) == 'DependentSampler']
         if len(ds) != 1:
             raise AnalysisError('gen_var_and_func_samples: expected one DependentSampler(...) construction')
         dst = lib.enclosing_stmt(ds[0])
         loop = X.enclosing_loop(dst)
-        if not (isinstance(loop, ast.For) and isinstance(loop.target, ast.Name) and isinstance(loop.iter, ast.Name)):
+        K = E = None
+        value_pats = []
+        if isinstance(loop, ast.For) and isinstance(loop.target, ast.Name) and isinstance(loop.iter, ast.Name):
+            K, E = loop.target.id, loop.iter.id
+            value_pats = ["%s[%s]" % (E, K)]
+        elif isinstance(loop, ast.For) and isinstance(loop.target, ast.Tuple) and len(loop.target.elts) == 2 \
+                and all(isinstance(t, ast.Name) for t in loop.target.elts) and X.m("_E.items()", loop.iter) is not None \
+                and isinstance(X.m("_E.items()", loop.iter)['_E'], ast.Name):
+            K, E = loop.target.elts[0].id, X.m("_E.items()", loop.iter)['_E'].id
+            value_pats = [loop.target.elts[1].id, "%s[%s]" % (E, K)]
+        else:
             raise AnalysisError('gen_var_and_func_samples: sibling loop not recognised')
-        K, E = loop.target.id, loop.iter.id
+        vtext = value_pats[0]
+        understood = X.only_calls([loop], {'append', 'DependentSampler', 'MissingInput', 'items', 'format'})
         construct = 'gen_var_and_func_samples: a sibling becomes DependentSampler(formula=<its formula>) under its own name'
         sb = X.m(X.spat("%s[_KEY] = DependentSampler(formula=_F)" % SF), dst)
         if sb is None:
@@ -1146,25 +1199,32 @@ def d6_siblings(ctx, idx):
             probs = []
             if not X.is_name(sb['_KEY'], K):
                 probs.append('stored under `%s`' % short(sb['_KEY']))
-            if X.m("%s[%s]" % (E, K), sb['_F']) is None:
+            if X.any_match(value_pats, sb['_F']) is None:
                 if X.is_name(sb['_F'], K):
-                    probs.append('the formula is the sibling\'s *name* `%s` instead of its formula %s[%s] (a self-reference, reported as circular)' % (K, E, K))
+                    probs.append('the formula is the sibling\'s *name* `%s` instead of its formula %s (a self-reference, reported as circular)' % (K, vtext))
                 else:
                     raise AnalysisError('sibling formula not recognised: %s' % short(sb['_F']))
-            r.check(not probs, construct, short(dst), '; '.join(probs), lib.loc(fi, dst), expected='%s[%s] = DependentSampler(formula=%s[%s])' % (SF, K, E, K))
+            r.check(not probs, construct, short(dst), '; '.join(probs), lib.loc(fi, dst), expected='%s[%s] = DependentSampler(formula=%s)' % (SF, K, vtext))
         construct = 'gen_var_and_func_samples: every sibling is declared as a variable'
-        apps = X.find_stmts(loop, "%s.append(%s)" % (VARS, K), own=False)
-        r.check(bool(apps), construct, '%s.append(%s)' % (VARS, K),
-                'siblings are not added to the variable list: they get a sampler but no value, so sibling references are undefined',
-                lib.loc(fi, loop))
+        apps = X.find_stmts(loop, "%s.append(%s)" % (VARS, K), own=False) or X.find_stmts(fn, "%s.extend(%s)" % (VARS, E)) \
+            or X.find_stmts(fn, "%s += list(%s)" % (VARS, E))
+        if apps:
+            r.ok(construct, short(apps[0][0]), lib.loc(fi, apps[0][0]))
+        else:
+            X.absent(r, construct, 'siblings are not added to the variable list: they get a sampler but no value, so sibling references are '
+                     'undefined', lib.loc(fi, loop), understood=understood and X.only_calls(
+                         [x for x in fn.body if not X.in_subtree(loop, x)],
+                         {'append', 'extend', 'isinstance', 'all', 'startswith', 'generate_variable_list', 'gen_symbols_samples', 'list', 'keys',
+                          'values', 'items'}))
         construct = 'gen_var_and_func_samples: an empty sibling raises MissingInput before its sampler is built'
         tests = [s for s in ast.walk(loop) if isinstance(s, ast.If) and any(isinstance(x, ast.Raise) for x in ast.walk(s))]
         if not tests:
-            r.violation(construct, 'no check for an empty sibling: DependentSampler(formula="") is built and the student gets a configuration '
-                        'error instead of "a required input is missing"', lib.loc(fi, loop), expected="if entry[k] == '': raise MissingInput")
+            X.absent(r, construct, 'no check for an empty sibling: DependentSampler(formula="") is built and the student gets a configuration '
+                     'error instead of "a required input is missing"', lib.loc(fi, loop), expected="if entry[k] == '': raise MissingInput",
+                     understood=understood and not any(isinstance(x, (ast.Raise, ast.Assert)) for x in ast.walk(loop)))
         else:
             t = tests[0]
-            res = nf.classify(["%s[%s] == ''" % (E, K), "not %s[%s]" % (E, K)], t.test)
+            res = nf.classify(["%s == ''" % v for v in value_pats] + ["not %s" % v for v in value_pats], t.test)
             verdict(r, construct, res, lib.loc(fi, t), short(t.test), expected="entry[k] == ''")
             ok, classes = X.body_raises(t.body)
             r.check(ok and classes == {'MissingInput'} and X.dominates(fi, t, dst), construct + ' [class, order]', 'MissingInput, before DependentSampler',
